@@ -29,6 +29,8 @@ type OpCtx struct {
 
 	// Loader serves the package-level spec.PathLoader while this operation runs.
 	Loader func(string) (json.RawMessage, error)
+	// LoaderTags records which installed package-level loader function served each request.
+	LoaderTags []string
 
 	arrivals map[string]int
 	noYield  int
